@@ -139,6 +139,10 @@ class CxSim:
             op = t[1]
             if op in ("&&", "||", "==", "!=", "+", "-", "*", "/", "<", ">", "<=", ">="):
                 return ("op", op, self.ev(t[2]), self.ev(t[3]))
+            if op.endswith("=") and op not in ("==", "!=", "<=", ">="):
+                # an assignment used as a value (`return *this = f(...)`): performed, then its target is the value
+                self.assign(t)
+                return self.ev(t[2])
             raise Giveup("operator %s inside an expression" % op)
         if k == "cond":
             return ("cond", self.ev(t[1]), self.ev(t[2]), self.ev(t[3]))
@@ -148,6 +152,8 @@ class CxSim:
         op, lhs, rhs = t[1], t[2], self.ev(t[3])
         while lhs[0] == "cast":
             lhs = lhs[3]
+        if lhs[0] == "call" and len(lhs) == 2 and lhs[1][0] == "mem" and lhs[1][1] == ("this",) and lhs[1][2] in ("real", "imag"):
+            lhs = ("mem", ("this",), "m_" + lhs[1][2])          # real() / imag() of *this return references to the parts (C10.opname checks the accessors too)
         if lhs[0] == "mem" and lhs[1] == ("this",) and lhs[2] in ("m_real", "m_imag"):
             self.state[lhs[2]] = rhs if op == "=" else ("op", op[:-1], self.state[lhs[2]], rhs)
             return
@@ -758,8 +764,42 @@ def rule_box(rep, d):
         if fn["name"] == "div":
             # scale
             cd = {n_ for n_, r_ in roles.items() if r_[0] == 1}
-            for v in ir.walk_expr(ir.body(fn)):
-                if v.get("kind") == "VarDecl" and v["name"] == "logbw" and ir.ekids(v):
+            direct = [v for v in ir.walk_expr(ir.body(fn)) if v.get("kind") == "VarDecl" and v["name"] == "logbw" and ir.ekids(v)
+                      and any(s_[0] == "call" and ir.show(s_[1]).endswith("logb") for s_ in ir.subterms(strip_casts(ir.sx(ir.ekids(v)[-1]))))]
+            if not direct:
+                # the scale may be computed in a helper the divisor parts are handed to: logb(fmax(fabs(p), fabs(q))) of two of its parameters
+                found_h = None
+                for c_ in ir.walk_expr(ir.body(fn)):
+                    if c_.get("kind") == "CallExpr":
+                        tc = strip_casts(ir.sx(c_))
+                        nm_ = str(tc[1][1]).split("::")[-1] if tc[0] == "call" and tc[1][0] == "ref" else (tc[1][2] if tc[0] == "call" and tc[1][0] == "mem" else None)
+                        h_ = helper(nm_) if nm_ else None
+                        if h_ is None:
+                            continue
+                        hp = [p_["name"] for p_ in ir.params(h_)]
+                        passed = {hp[i_] for i_, a_ in enumerate(tc[2:]) if i_ < len(hp) and strip_casts(a_)[0] == "ref" and strip_casts(a_)[1] in cd}
+                        for x_ in ir.walk_expr(ir.body(h_)):
+                            tx = strip_casts(ir.sx(x_)) if x_.get("kind") in ("BinaryOperator", "VarDecl") and (x_.get("kind") != "VarDecl" or ir.ekids(x_)) else None
+                            if x_.get("kind") == "VarDecl" and ir.ekids(x_):
+                                tx = ("bin", "=", ("ref", x_["name"]), strip_casts(ir.sx(ir.ekids(x_)[-1])))
+                            if tx and tx[0] == "bin" and tx[1] == "=" and tx[3][0] == "call" and ir.show(tx[3][1]).endswith("logb") and len(tx[3]) == 3:
+                                m = tx[3][2]
+                                names = set()
+                                good = m[0] == "call" and ir.show(m[1]).endswith(("fmax", "max")) and len(m) == 4
+                                if good:
+                                    for a_ in m[2:]:
+                                        if a_[0] == "call" and ir.show(a_[1]).endswith(("fabs", "abs")) and a_[2][0] == "ref":
+                                            names.add(a_[2][1])
+                                        else:
+                                            good = False
+                                found_h = (x_, good and names == passed and len(passed) == 2, ir.show(tx[3]))
+                if found_h is None:
+                    rep.inconclusive("C10.box", label, "divisor scale", where=d.where(fn), detail="no logb(...) of the divisor found in div or in a helper it hands the divisor to")
+                else:
+                    (rep.holds if found_h[1] else rep.violates)("C10.box", label, "divisor scale", where=d.where(found_h[0]),
+                                                               detail=found_h[2] if found_h[1] else "the scale must be logb(fmax(fabs(c), fabs(d))) of the two divisor parts; found `%s`" % found_h[2])
+            for v in direct:
+                if True:
                     t = strip_casts(ir.sx(ir.ekids(v)[-1]))
                     ok = False
                     if t[0] == "call" and ir.show(t[1]).endswith("logb") and len(t) == 3:
@@ -808,8 +848,12 @@ def rule_box(rep, d):
                                                        detail=("the rescaling is additionally conditioned on `%s`: for exponents it excludes the quotient is computed unscaled "
                                                                "(overflow/underflow of c*c + d*d depends on the value type)" % extra[1]) if extra else "guarded by isfinite(logbw) only")
             okx = bool(exps) and all(e == "-ilogbw" for e, _ in exps) and len(exps) == 4
-            (rep.holds if okx else rep.violates)("C10.box", label, "scalbn exponents", where=d.where(fn),
-                                                 detail="4 x scalbn(., -ilogbw)" if okx else "expected scalbn(c|d|x|y, -ilogbw) four times; found %s" % [e for e, _ in exps])
+            has_il = any(v_.get("kind") == "VarDecl" and v_.get("name") == "ilogbw" for v_ in ir.walk_expr(ir.body(fn)))
+            if okx or has_il or not exps and not any("scalbn" in d.text(h_) for h_ in ir.functions(d) if "xcomplex.hpp" in (d.where(h_) or "") and ir.body(h_) is not None):
+                (rep.holds if okx else rep.violates)("C10.box", label, "scalbn exponents", where=d.where(fn),
+                                                     detail="4 x scalbn(., -ilogbw)" if okx else "expected scalbn(c|d|x|y, -ilogbw) four times; found %s" % [e for e, _ in exps])
+            else:
+                rep.inconclusive("C10.box", label, "scalbn exponents", where=d.where(fn), detail="the exponent is not kept in a local `ilogbw` here (%s): not followed" % [e for e, _ in exps])
     if n_box < 10:
         rep.broke("Annex G boxing idioms not found (%d)" % n_box)
 
